@@ -128,8 +128,22 @@ Definition nz_matmat (k : nat) (v : normalizer) (X : mat) : mat :=
   let prod := smm k (nz_adj v) X in
   let prod := if Qlt_b 0 (nz_reg v) then madd prod (mscale (nz_reg v) (outer (vones (s_nrow (nz_adj v))) (col_means k X))) else prod in
   smm k (nz_diag v) prod.
-(** _transpose returns self *)
-Definition nz_transpose (v : normalizer) : normalizer := v.
+(** _rmatvec (commit 042fc436): prod = norm_diag.dot(x); out = adjacency.T.dot(prod) (+ reg * sum(prod) / n_col).
+    There is no _transpose any more: operator.T is SciPy's _TransposedLinearOperator, whose _matvec is this _rmatvec
+    (and whose own transpose applies _matvec again), with the reversed shape. *)
+Definition nz_rmatvec (v : normalizer) (x : vec) : vec :=
+  let prod := smv (nz_diag v) x in
+  let out := smv (stranspose (nz_adj v)) prod in
+  if Qlt_b 0 (nz_reg v)
+  then vadd out (map (fun q => q / qnat (s_ncol (nz_adj v))) (vscale (nz_reg v * sumq prod) (vones (s_ncol (nz_adj v)))))
+  else out.
+Definition nz_rmatmat (k : nat) (v : normalizer) (X : mat) : mat :=
+  let prod := smm k (nz_diag v) X in
+  let out := smm k (stranspose (nz_adj v)) prod in
+  if Qlt_b 0 (nz_reg v)
+  then madd out (map (map (fun q => q / qnat (s_ncol (nz_adj v))))
+                     (mscale (nz_reg v) (outer (vones (s_ncol (nz_adj v))) (col_sums k prod))))
+  else out.
 (** specification: D^+ R with R = A + reg/n_col 11^T the regularised matrix and D = diag(R 1) *)
 Definition regularized_dense (a : smat) (reg : Q) : mat :=
   madd (dense a) (mconst (s_nrow a) (s_ncol a) (reg / qnat (s_ncol a))).
@@ -155,7 +169,9 @@ Definition lp_matmat (k : nat) (v : laplacian) (X : mat) : mat :=
   let prod := if Qlt_b 0 (lp_reg v)
               then madd prod (mscale (lp_reg v) (msub X1 (outer (vones (lp_n v)) (col_means k X1)))) else prod in
   if lp_norm v then smm k (lp_diag v) prod else prod.
-Definition lp_transpose (v : laplacian) : laplacian := v.
+(** _transpose (commit ca03879a): a copy whose sparse part is transposed (weights, regularisation, normalisation kept) *)
+Definition lp_transpose (v : laplacian) : laplacian :=
+  {| lp_n := lp_n v; lp_reg := lp_reg v; lp_norm := lp_norm v; lp_lap := stranspose (lp_lap v); lp_diag := lp_diag v |}.
 Definition lp_astype (v : laplacian) : laplacian := v.
 (** specification: L = diag(R 1) - R for the regularised adjacency R; normalised: N L N, N = diag(sqrt(R 1))^+ *)
 Definition laplacian_dense (sqrtf : Q -> Q) (a : smat) (reg : Q) (norm : bool) : mat :=
@@ -167,32 +183,27 @@ Definition laplacian_dense (sqrtf : Q -> Q) (a : smat) (reg : Q) (norm : bool) :
 (* ------------------------------------------------------------------------------------------- *)
 (** * CoNeighbor (operators.py): every algebraic operation mutates the object and returns it;
       [cn_shape] is the LinearOperator shape fixed by __init__ and never updated. *)
-(** [cn_shared]: with normalized=False, forward = adjacency.T is a view on the data buffer of backward = adjacency,
-    so the in-place scalings of __neg__ / __mul__ (backward *= c) reach both factors, until one of them is replaced. *)
-Record coneighbor := { cn_shape : nat * nat; cn_back : smat; cn_fwd : smat; cn_shared : bool }.
+Record coneighbor := { cn_shape : nat * nat; cn_back : smat; cn_fwd : smat }.
 Definition snorms1 (s : smat) : vec := smv (smap Qabs s) (vones (s_ncol s)).
 Definition snormalize (s : smat) : smat := smul (sdiag_pinv (snorms1 s)) s.
+(** forward = normalize(adjacency.T).tocsr() or adjacency.T.tocsr(): its own buffer in both cases (commit 1496c670) *)
 Definition mk_coneighbor (a : smat) (normalized : bool) : coneighbor :=
   {| cn_shape := (s_nrow a, s_nrow a); cn_back := a;
-     cn_fwd := if normalized then snormalize (stranspose a) else stranspose a;
-     cn_shared := negb normalized |}.
+     cn_fwd := if normalized then snormalize (stranspose a) else stranspose a |}.
 Definition cn_matvec (v : coneighbor) (x : vec) : vec := smv (cn_back v) (smv (cn_fwd v) x).
 Definition cn_matmat (k : nat) (v : coneighbor) (X : mat) : mat := smm k (cn_back v) (smm k (cn_fwd v) X).
 Definition cn_mul (c : Q) (v : coneighbor) : coneighbor :=
-  {| cn_shape := cn_shape v; cn_back := sscale c (cn_back v);
-     cn_fwd := if cn_shared v then sscale c (cn_fwd v) else cn_fwd v; cn_shared := cn_shared v |}.
+  {| cn_shape := cn_shape v; cn_back := sscale c (cn_back v); cn_fwd := cn_fwd v |}.
 Definition cn_neg (v : coneighbor) : coneighbor := cn_mul (-(1)) v.
+(** left / right_sparse_dot update the recorded shape (commit 2a194d08) *)
 Definition cn_left (M : smat) (v : coneighbor) : coneighbor :=
-  {| cn_shape := cn_shape v; cn_back := smul M (cn_back v); cn_fwd := cn_fwd v; cn_shared := false |}.
+  {| cn_shape := (s_nrow (smul M (cn_back v)), snd (cn_shape v)); cn_back := smul M (cn_back v); cn_fwd := cn_fwd v |}.
 Definition cn_right (v : coneighbor) (M : smat) : coneighbor :=
-  {| cn_shape := cn_shape v; cn_back := cn_back v; cn_fwd := smul (cn_fwd v) M; cn_shared := false |}.
-(** _transpose: operator = CoNeighbor(self.backward) (shape from backward's rows), then both factors replaced by copies.
-    Not modelled: that throw-away constructor runs check_format, which raises when backward has no stored entry
-    (as does the constructor proper on an empty adjacency); the harness keeps base matrices non-empty and reports
-    the transposition case. *)
+  {| cn_shape := (fst (cn_shape v), s_ncol (smul (cn_fwd v) M)); cn_back := cn_back v; cn_fwd := smul (cn_fwd v) M |}.
+(** _transpose: a copy with both factors transposed and exchanged, shape from the new factors *)
 Definition cn_transpose (v : coneighbor) : coneighbor :=
-  {| cn_shape := (s_nrow (cn_back v), s_nrow (cn_back v));
-     cn_back := stranspose (cn_fwd v); cn_fwd := stranspose (cn_back v); cn_shared := false |}.
+  {| cn_shape := (s_nrow (stranspose (cn_fwd v)), s_ncol (stranspose (cn_back v)));
+     cn_back := stranspose (cn_fwd v); cn_fwd := stranspose (cn_back v) |}.
 Definition cn_astype (v : coneighbor) : coneighbor := v.
 (** operator.dot(x): LinearOperator's checks against the recorded shape, scipy's check inside forward.dot *)
 Definition cn_dot (v : coneighbor) (x : vec) : res vec :=
@@ -366,29 +377,6 @@ Fixpoint ce_wf (e : cn_expr) : Prop :=
   | CLeft M e => ce_wf e /\ swf M /\ s_ncol M = fst (ce_shape e)
   | CRight e M => ce_wf e /\ swf M /\ s_nrow M = snd (ce_shape e)
   end.
-(** every sparse factor is square, i.e. the operations that would need a shape update are excluded *)
-Fixpoint ce_square_factors (e : cn_expr) : Prop :=
-  match e with
-  | CBase _ _ => True
-  | CNeg e | CMul _ e | CT e | CAstype e => ce_square_factors e
-  | CLeft M e => ce_square_factors e /\ s_nrow M = s_ncol M
-  | CRight e M => ce_square_factors e /\ s_nrow M = s_ncol M
-  end.
-(** the two factors still share their data buffer *)
-Fixpoint ce_shared (e : cn_expr) : bool :=
-  match e with
-  | CBase _ nrm => negb nrm
-  | CNeg e | CMul _ e | CAstype e => ce_shared e
-  | CLeft _ _ | CRight _ _ | CT _ => false
-  end.
-(** no negation / scaling while the factors share their buffer *)
-Fixpoint ce_unshared_scaling (e : cn_expr) : Prop :=
-  match e with
-  | CBase _ _ => True
-  | CNeg e | CMul _ e => ce_shared e = false /\ ce_unshared_scaling e
-  | CLeft _ e | CRight e _ | CT e | CAstype e => ce_unshared_scaling e
-  end.
-
 Inductive pl_expr : Type :=
 | PBase (a : smat) (coeffs : list Q)
 | PNeg (e : pl_expr)
@@ -418,13 +406,18 @@ Fixpoint pe_wf (e : pl_expr) : Prop :=
 
 (** Normalizer / Laplacian expressions: the base operator and its (repeated) transposition / astype *)
 Inductive nz_expr : Type := NBase (a : smat) (reg : Q) | NT (e : nz_expr).
-Fixpoint nz_eval (e : nz_expr) : normalizer :=
-  match e with NBase a reg => mk_normalizer a reg | NT e => nz_transpose (nz_eval e) end.
+(** the Normalizer object under the transpositions, and whether an odd number of them is applied *)
+Fixpoint ne_base (e : nz_expr) : normalizer :=
+  match e with NBase a reg => mk_normalizer a reg | NT e => ne_base e end.
+Fixpoint ne_flag (e : nz_expr) : bool := match e with NBase _ _ => false | NT e => negb (ne_flag e) end.
+Definition ne_matvec (e : nz_expr) (x : vec) : vec :=
+  if ne_flag e then nz_rmatvec (ne_base e) x else nz_matvec (ne_base e) x.
+Definition ne_matmat (k : nat) (e : nz_expr) (X : mat) : mat :=
+  if ne_flag e then nz_rmatmat k (ne_base e) X else nz_matmat k (ne_base e) X.
 Fixpoint ne_shape (e : nz_expr) : nat * nat :=
   match e with NBase a _ => (s_nrow a, s_ncol a) | NT e => (snd (ne_shape e), fst (ne_shape e)) end.
 Fixpoint ne_dense (e : nz_expr) : mat :=
   match e with NBase a reg => normalizer_dense a reg | NT e => transpose_n (snd (ne_shape e)) (ne_dense e) end.
-Definition ne_transposed (e : nz_expr) : bool := match e with NBase _ _ => false | NT _ => true end.
 Fixpoint ne_wf (e : nz_expr) : Prop :=
   match e with NBase a reg => swf a /\ (0 < s_ncol a)%nat /\ 0 <= reg | NT e => ne_wf e end.
 
@@ -447,16 +440,6 @@ Fixpoint le_wf (e : lp_expr) : Prop :=
   | LBase a reg _ => swf a /\ s_nrow a = s_ncol a /\ (0 < s_nrow a)%nat /\ 0 <= reg
   | LT e | LAstype e => le_wf e
   end.
-(** the adjacency is symmetric, or the expression is never transposed *)
-Fixpoint le_base_sym (e : lp_expr) : Prop :=
-  match e with LBase a _ _ => msymmetric (s_nrow a) (dense a) | LT e | LAstype e => le_base_sym e end.
-Fixpoint le_sym_or_untransposed (e : lp_expr) : Prop :=
-  match e with
-  | LBase _ _ _ => True
-  | LT e => le_base_sym e
-  | LAstype e => le_sym_or_untransposed e
-  end.
-
 (** all operators *)
 Inductive op_expr : Type :=
 | OSlr (e : slr_expr) | ONorm (e : nz_expr) | OLap (e : lp_expr) | OCn (e : cn_expr) | OPoly (e : pl_expr).
@@ -469,7 +452,7 @@ Definition op_shape (o : op_expr) : nat * nat :=
 Definition op_apply (sqrtf : Q -> Q) (o : op_expr) (x : vec) : res vec :=
   match o with
   | OSlr e => let v := slr_eval e in lo_dot (slr_shape v) (slr_matvec v) x
-  | ONorm e => let v := nz_eval e in lo_dot (nz_shape v) (nz_matvec v) x
+  | ONorm e => lo_dot (ne_shape e) (ne_matvec e) x
   | OLap e => let v := lp_eval sqrtf e in lo_dot (lp_n v, lp_n v) (lp_matvec v) x
   | OCn e => cn_dot (cn_eval e) x
   | OPoly e => let v := pl_eval e in lo_dot (s_nrow (pl_mat v), s_ncol (pl_mat v)) (pl_matvec v) x
@@ -478,7 +461,7 @@ Definition op_apply (sqrtf : Q -> Q) (o : op_expr) (x : vec) : res vec :=
 Definition op_apply_mat (sqrtf : Q -> Q) (k : nat) (o : op_expr) (X : mat) : mat :=
   match o with
   | OSlr e => slr_matmat k (slr_eval e) X
-  | ONorm e => nz_matmat k (nz_eval e) X
+  | ONorm e => ne_matmat k e X
   | OLap e => lp_matmat k (lp_eval sqrtf e) X
   | OCn e => cn_matmat k (cn_eval e) X
   | OPoly e => pl_matmat k (pl_eval e) X
@@ -492,16 +475,6 @@ Definition op_wf (o : op_expr) : Prop :=
   match o with
   | OSlr e => se_wf e | ONorm e => ne_wf e | OLap e => le_wf e | OCn e => ce_wf e | OPoly e => pe_wf e
   end.
-(** the defective sites are excluded: a transposed Normalizer, a transposed Laplacian of a non-symmetric
-    adjacency, a CoNeighbor product with a non-square factor, a CoNeighbor scaling on shared factors *)
-Definition op_sound_site (o : op_expr) : Prop :=
-  match o with
-  | OSlr _ | OPoly _ => True
-  | ONorm e => ne_transposed e = false
-  | OLap e => le_sym_or_untransposed e
-  | OCn e => ce_square_factors e /\ ce_unshared_scaling e
-  end.
-
 (* ------------------------------------------------------------------------------------------- *)
 (** * Utilities *)
 (** linalg/normalizer.py: get_norms, normalize on CSR input *)
@@ -560,7 +533,29 @@ Definition top_k (argsort : list Q -> list nat) (argpartition : list Q -> nat ->
            (scores : list Q) (k : nat) (sort : bool) : res (list nat) :=
   let neg := map Qopp scores in
   if Nat.leb (length scores) k
-  then (if sort then Ok (argsort neg) else Err)             (* np.arange(scores) raises *)
+  then (if sort then Ok (argsort neg) else Ok (seq 0 (length scores)))     (* np.arange(len(scores)), commit 5ac8181a *)
   else let index := firstn k (argpartition neg k) in
        if sort then Ok (map (fun p => nth p index 0%nat) (argsort (map (fun i => nthq neg i) index)))
        else Ok index.
+
+(* ------------------------------------------------------------------------------------------- *)
+(** * Legacy: the definitions of the code BEFORE the fix commits 5ac8181a, 042fc436, ca03879a, 1496c670, 2a194d08.
+      Kept only so that the refutations (legacy_*_refuted) name the defects; nothing above depends on them. *)
+Definition legacy_nz_transpose (v : normalizer) : normalizer := v.              (* Normalizer._transpose returned self *)
+Definition legacy_lp_transpose (v : laplacian) : laplacian := v.                 (* Laplacian._transpose returned self *)
+Definition legacy_top_k (argsort : list Q -> list nat) (argpartition : list Q -> nat -> list nat)
+           (scores : list Q) (k : nat) (sort : bool) : res (list nat) :=
+  if Nat.leb (length scores) k && negb sort then Err                             (* np.arange(scores) raised *)
+  else top_k argsort argpartition scores k sort.
+(** CoNeighbor: [lc_shared] = forward was a view on backward's buffer (normalized=False); the shape was never updated *)
+Record legacy_coneighbor := { lc_shape : nat * nat; lc_back : smat; lc_fwd : smat; lc_shared : bool }.
+Definition legacy_mk_coneighbor (a : smat) (normalized : bool) : legacy_coneighbor :=
+  {| lc_shape := (s_nrow a, s_nrow a); lc_back := a;
+     lc_fwd := if normalized then snormalize (stranspose a) else stranspose a; lc_shared := negb normalized |}.
+Definition legacy_cn_mul (c : Q) (v : legacy_coneighbor) : legacy_coneighbor :=
+  {| lc_shape := lc_shape v; lc_back := sscale c (lc_back v);
+     lc_fwd := if lc_shared v then sscale c (lc_fwd v) else lc_fwd v; lc_shared := lc_shared v |}.
+Definition legacy_cn_left (M : smat) (v : legacy_coneighbor) : legacy_coneighbor :=
+  {| lc_shape := lc_shape v; lc_back := smul M (lc_back v); lc_fwd := lc_fwd v; lc_shared := false |}.
+Definition legacy_cn_dot (v : legacy_coneighbor) (x : vec) : res vec :=
+  if Nat.eqb (length x) (s_ncol (lc_fwd v)) then lo_dot (lc_shape v) (fun y => smv (lc_back v) (smv (lc_fwd v) y)) x else Err.
